@@ -40,7 +40,13 @@ func genC05(thorough bool) func(t *rapid.T) Case {
 		if rapid.IntRange(0, 4).Draw(t, "rounding_boundary") == 4 {
 			bo.Boundary, lo.Boundary = true, true
 		}
-		c.Base = genCLIBase(t, baseOpts{shapes: names, book: bo, log: lo, longNames: true})
+		switch rapid.IntRange(0, 15).Draw(t, "rare_shape") {
+		case 13:
+			bo.Extreme, lo.Extreme = true, true
+		case 14, 15:
+			lo.LongDays = true
+		}
+		c.Base = genCLIBase(t, baseOpts{shapes: names, book: bo, log: lo, longNames: true, hugeFiles: true})
 		if rapid.IntRange(0, 3).Draw(t, "extra_locals") == 3 {
 			c.Base.Inv.Locals = genExtraLocals(t, c.Base.Inv.Shape)
 		}
